@@ -1,9 +1,9 @@
 #!/bin/bash
-# usage: mut.sh <prop> <file> <python-replace-old> <python-replace-new>   (dev helper: run a check on a mutated scratch copy)
-set -e
+# usage: mut.sh <prop> <file> <old> <new>   (dev helper: run a check on a mutated scratch copy; ALWAYS restores the scratch tree)
 W=/tmp/wt1
-git -C $W checkout -q -- .
-python3 - "$W/$2" "$3" "$4" <<'PY'
+git -C $W checkout -q -- . ; git -C $W clean -fdq -e target
+trap 'git -C $W checkout -q -- . ; git -C $W clean -fdq -e target' EXIT
+python3 - "$W/$2" "$3" "$4" <<'PY' || exit 3
 import sys
 p,old,new=sys.argv[1:4]
 s=open(p).read()
@@ -11,5 +11,4 @@ assert s.count(old)>=1, "pattern not found"
 s=s.replace(old,new,1)
 open(p,'w').write(s)
 PY
-VERIF_REPO=$W ./check $1 --tier quick; echo "exit=$?"
-git -C $W checkout -q -- .
+VERIF_EVIDENCE_DIR=/tmp/seed_evidence VERIF_REPLAY_DIR=/tmp/seed_replays VERIF_REPO=$W ./check $1 --tier quick; echo "exit=$?"
